@@ -178,9 +178,9 @@ struct Finding {
 struct Finds(Vec<Finding>);
 
 impl Finds {
-    fn add(&mut self, kind: &str, detail: Value) {
+    fn add(&mut self, kind: &str, detail: impl FnOnce() -> Value) {
         if !self.0.iter().any(|f| f.kind == kind) {
-            self.0.push(Finding { kind: kind.to_string(), detail });
+            self.0.push(Finding { kind: kind.to_string(), detail: detail() });
         }
     }
     fn has(&self, kind: &str) -> bool {
@@ -260,29 +260,29 @@ fn dict_full_check(d: &mut Dictionary, q: &mut QuotedTripleStore, sh: &DictShado
     for (t, &id) in &sh.fwd {
         n += 1;
         if d.decode(id) != Some(t.as_str()) {
-            f.add("id_changed_meaning_after_later_encodes", json!({"api": "Dictionary::decode", "term": t, "id": id, "decodes_to": d.decode(id), "trace_tail": tail(trace, 25)}));
+            f.add("id_changed_meaning_after_later_encodes", || json!({"api": "Dictionary::decode", "term": t, "id": id, "decodes_to": d.decode(id), "trace_tail": tail(trace, 25)}));
         }
         let again = d.encode(t);
         if again != id {
-            f.add("term_reencoded_to_different_id", json!({"api": "Dictionary::encode", "term": t, "first_id": id, "later_id": again, "trace_tail": tail(trace, 25)}));
+            f.add("term_reencoded_to_different_id", || json!({"api": "Dictionary::encode", "term": t, "first_id": id, "later_id": again, "trace_tail": tail(trace, 25)}));
         }
     }
     for (&c, &id) in &sh.qfwd {
         n += 1;
         if q.decode(id) != Some(c) {
-            f.add("quoted_id_changed_meaning_after_later_encodes", json!({"api": "QuotedTripleStore::decode", "components": format!("{:?}", c), "id": id, "decodes_to": format!("{:?}", q.decode(id)), "trace_tail": tail(trace, 25)}));
+            f.add("quoted_id_changed_meaning_after_later_encodes", || json!({"api": "QuotedTripleStore::decode", "components": format!("{:?}", c), "id": id, "decodes_to": format!("{:?}", q.decode(id)), "trace_tail": tail(trace, 25)}));
         }
         let again = q.encode(c.0, c.1, c.2);
         if again != id {
-            f.add("quoted_triple_reencoded_to_different_id", json!({"api": "QuotedTripleStore::encode", "components": format!("{:?}", c), "first_id": id, "later_id": again, "trace_tail": tail(trace, 25)}));
+            f.add("quoted_triple_reencoded_to_different_id", || json!({"api": "QuotedTripleStore::encode", "components": format!("{:?}", c), "first_id": id, "later_id": again, "trace_tail": tail(trace, 25)}));
         }
     }
     // lock-step of the two maps and the counter
     if d.string_to_id.len() != sh.fwd.len() || d.id_to_string.len() != sh.fwd.len() {
-        f.add("dictionary_maps_out_of_step", json!({"distinct_terms_encoded": sh.fwd.len(), "string_to_id": d.string_to_id.len(), "id_to_string": d.id_to_string.len()}));
+        f.add("dictionary_maps_out_of_step", || json!({"distinct_terms_encoded": sh.fwd.len(), "string_to_id": d.string_to_id.len(), "id_to_string": d.id_to_string.len()}));
     }
     if q.id_to_components.len() != sh.qfwd.len() || q.components_to_id.len() != sh.qfwd.len() || q.len() != sh.qfwd.len() {
-        f.add("quoted_store_maps_out_of_step", json!({"distinct_triples_encoded": sh.qfwd.len(), "id_to_components": q.id_to_components.len(), "components_to_id": q.components_to_id.len()}));
+        f.add("quoted_store_maps_out_of_step", || json!({"distinct_triples_encoded": sh.qfwd.len(), "id_to_components": q.id_to_components.len(), "components_to_id": q.components_to_id.len()}));
     }
     n
 }
@@ -325,25 +325,25 @@ fn run_dict_case(r: &mut Rng, thorough: bool) -> Result<(Finds, DictStats, u64),
                         Some(&old) => {
                             st.rep_plain += 1;
                             if old != id {
-                                f.add("term_reencoded_to_different_id", json!({"api": "Dictionary::encode", "term": t, "first_id": old, "later_id": id, "trace_tail": tail(&trace, 25)}));
+                                f.add("term_reencoded_to_different_id", || json!({"api": "Dictionary::encode", "term": t, "first_id": old, "later_id": id, "trace_tail": tail(&trace, 25)}));
                             }
                         }
                         None => {
                             st.new_plain += 1;
                             if let Some(other) = sh.rev.get(&id) {
-                                f.add("two_terms_share_one_id", json!({"api": "Dictionary::encode", "id": id, "first_term": other, "second_term": t, "trace_tail": tail(&trace, 25)}));
+                                f.add("two_terms_share_one_id", || json!({"api": "Dictionary::encode", "id": id, "first_term": other, "second_term": t, "trace_tail": tail(&trace, 25)}));
                             } else {
                                 sh.fwd.insert(t.clone(), id);
                                 sh.rev.insert(id, t.clone());
                                 sh.plain_ids.push(id);
                             }
                             if is_quoted_triple_id(id) {
-                                f.add("plain_term_id_in_quoted_range", json!({"term": t, "id": id}));
+                                f.add("plain_term_id_in_quoted_range", || json!({"term": t, "id": id}));
                             }
                         }
                     }
                     if d.decode(id) != Some(t.as_str()) {
-                        f.add("decode_is_not_inverse_of_encode", json!({"api": "Dictionary", "term": t, "id": id, "decodes_to": d.decode(id), "trace_tail": tail(&trace, 25)}));
+                        f.add("decode_is_not_inverse_of_encode", || json!({"api": "Dictionary", "term": t, "id": id, "decodes_to": d.decode(id), "trace_tail": tail(&trace, 25)}));
                     }
                 }
                 1 => {
@@ -382,13 +382,13 @@ fn run_dict_case(r: &mut Rng, thorough: bool) -> Result<(Finds, DictStats, u64),
                         Some(&old) => {
                             st.rep_q += 1;
                             if old != id {
-                                f.add("quoted_triple_reencoded_to_different_id", json!({"api": "QuotedTripleStore::encode", "components": format!("{:?}", c), "first_id": old, "later_id": id, "trace_tail": tail(&trace, 25)}));
+                                f.add("quoted_triple_reencoded_to_different_id", || json!({"api": "QuotedTripleStore::encode", "components": format!("{:?}", c), "first_id": old, "later_id": id, "trace_tail": tail(&trace, 25)}));
                             }
                         }
                         None => {
                             st.new_q += 1;
                             if let Some(other) = sh.qrev.get(&id) {
-                                f.add("two_quoted_triples_share_one_id", json!({"id": id, "first": format!("{:?}", other), "second": format!("{:?}", c), "trace_tail": tail(&trace, 25)}));
+                                f.add("two_quoted_triples_share_one_id", || json!({"id": id, "first": format!("{:?}", other), "second": format!("{:?}", c), "trace_tail": tail(&trace, 25)}));
                             } else {
                                 sh.qfwd.insert(c, id);
                                 sh.qrev.insert(id, c);
@@ -396,15 +396,15 @@ fn run_dict_case(r: &mut Rng, thorough: bool) -> Result<(Finds, DictStats, u64),
                                 st.max_depth = st.max_depth.max(sh.qdepth(id));
                             }
                             if !is_quoted_triple_id(id) {
-                                f.add("quoted_triple_id_without_high_bit", json!({"components": format!("{:?}", c), "id": id}));
+                                f.add("quoted_triple_id_without_high_bit", || json!({"components": format!("{:?}", c), "id": id}));
                             }
                             if sh.rev.contains_key(&id) {
-                                f.add("quoted_id_equals_plain_id", json!({"id": id}));
+                                f.add("quoted_id_equals_plain_id", || json!({"id": id}));
                             }
                         }
                     }
                     if q.decode(id) != Some(c) {
-                        f.add("decode_is_not_inverse_of_encode", json!({"api": "QuotedTripleStore", "components": format!("{:?}", c), "id": id, "decodes_to": format!("{:?}", q.decode(id)), "trace_tail": tail(&trace, 25)}));
+                        f.add("decode_is_not_inverse_of_encode", || json!({"api": "QuotedTripleStore", "components": format!("{:?}", c), "id": id, "decodes_to": format!("{:?}", q.decode(id)), "trace_tail": tail(&trace, 25)}));
                     }
                 }
                 2 => {
@@ -413,13 +413,13 @@ fn run_dict_case(r: &mut Rng, thorough: bool) -> Result<(Finds, DictStats, u64),
                     if !sh.plain_ids.is_empty() {
                         let id = *r.pick(&sh.plain_ids);
                         if d.decode(id) != Some(sh.rev[&id].as_str()) {
-                            f.add("id_changed_meaning_after_later_encodes", json!({"api": "Dictionary::decode", "term": sh.rev[&id], "id": id, "decodes_to": d.decode(id), "trace_tail": tail(&trace, 25)}));
+                            f.add("id_changed_meaning_after_later_encodes", || json!({"api": "Dictionary::decode", "term": sh.rev[&id], "id": id, "decodes_to": d.decode(id), "trace_tail": tail(&trace, 25)}));
                         }
                     }
                     if !sh.quoted_ids.is_empty() {
                         let id = *r.pick(&sh.quoted_ids);
                         if q.decode(id) != Some(sh.qrev[&id]) {
-                            f.add("quoted_id_changed_meaning_after_later_encodes", json!({"api": "QuotedTripleStore::decode", "id": id, "expected": format!("{:?}", sh.qrev[&id]), "decodes_to": format!("{:?}", q.decode(id)), "trace_tail": tail(&trace, 25)}));
+                            f.add("quoted_id_changed_meaning_after_later_encodes", || json!({"api": "QuotedTripleStore::decode", "id": id, "expected": format!("{:?}", sh.qrev[&id]), "decodes_to": format!("{:?}", q.decode(id)), "trace_tail": tail(&trace, 25)}));
                         }
                     }
                 }
@@ -432,7 +432,7 @@ fn run_dict_case(r: &mut Rng, thorough: bool) -> Result<(Finds, DictStats, u64),
                         _ => QUOTED_TRIPLE_ID_BIT - 1,
                     };
                     if !sh.rev.contains_key(&pid) && d.decode(pid).is_some() {
-                        f.add("never_issued_id_decodes", json!({"api": "Dictionary::decode", "id": pid, "decodes_to": d.decode(pid)}));
+                        f.add("never_issued_id_decodes", || json!({"api": "Dictionary::decode", "id": pid, "decodes_to": d.decode(pid)}));
                     }
                     let qid = match r.below(3) {
                         0 => q.next_qt_id,
@@ -440,17 +440,17 @@ fn run_dict_case(r: &mut Rng, thorough: bool) -> Result<(Finds, DictStats, u64),
                         _ => u32::MAX,
                     };
                     if !sh.qrev.contains_key(&qid) && q.decode(qid).is_some() {
-                        f.add("never_issued_id_decodes", json!({"api": "QuotedTripleStore::decode", "id": qid}));
+                        f.add("never_issued_id_decodes", || json!({"api": "QuotedTripleStore::decode", "id": qid}));
                     }
                     // ids of the other range
                     if let Some(&id) = sh.quoted_ids.first() {
                         if d.decode(id).is_some() {
-                            f.add("quoted_id_decodes_in_plain_dictionary", json!({"id": id}));
+                            f.add("quoted_id_decodes_in_plain_dictionary", || json!({"id": id}));
                         }
                     }
                     if let Some(&id) = sh.plain_ids.first() {
                         if q.decode(id).is_some() {
-                            f.add("plain_id_decodes_in_quoted_store", json!({"id": id}));
+                            f.add("plain_id_decodes_in_quoted_store", || json!({"id": id}));
                         }
                     }
                 }
@@ -461,7 +461,7 @@ fn run_dict_case(r: &mut Rng, thorough: bool) -> Result<(Finds, DictStats, u64),
                     let want = sh.render(id, 64);
                     let got = d.decode_term(id, &q);
                     if got != want {
-                        f.add("decode_term_differs_from_structure", json!({"id": id, "expected": want, "got": got, "trace_tail": tail(&trace, 25)}));
+                        f.add("decode_term_differs_from_structure", || json!({"id": id, "expected": want, "got": got, "trace_tail": tail(&trace, 25)}));
                     }
                 }
                 5 => {
@@ -627,13 +627,13 @@ impl StarShadow {
         match self.fwd.get(t) {
             Some(&old) => {
                 if old != id {
-                    f.add("term_reencoded_to_different_id", json!({"api": "encode_term_star", "spelling": sp.name(), "term": t.render(), "first_id": old, "later_id": id, "trace_tail": tail(trace, 20)}));
+                    f.add("term_reencoded_to_different_id", || json!({"api": "encode_term_star", "spelling": sp.name(), "term": t.render(), "first_id": old, "later_id": id, "trace_tail": tail(trace, 20)}));
                 }
             }
             None => {
                 fresh = true;
                 if let Some(other) = self.rev.get(&id) {
-                    f.add("two_terms_share_one_id", json!({"api": "encode_term_star", "spelling": sp.name(), "id": id, "first_term": other.render(), "second_term": t.render(), "trace_tail": tail(trace, 20)}));
+                    f.add("two_terms_share_one_id", || json!({"api": "encode_term_star", "spelling": sp.name(), "id": id, "first_term": other.render(), "second_term": t.render(), "trace_tail": tail(trace, 20)}));
                     return fresh;
                 }
                 self.fwd.insert(t.clone(), id);
@@ -641,19 +641,19 @@ impl StarShadow {
             }
         }
         if is_quoted_triple_id(id) != t.is_q() {
-            f.add(if t.is_q() { "quoted_triple_id_without_high_bit" } else { "plain_term_id_in_quoted_range" }, json!({"api": "encode_term_star", "spelling": sp.name(), "term": t.render(), "id": id}));
+            f.add(if t.is_q() { "quoted_triple_id_without_high_bit" } else { "plain_term_id_in_quoted_range" }, || json!({"api": "encode_term_star", "spelling": sp.name(), "term": t.render(), "id": id}));
         }
         match db_tree(db, id) {
             Ok(tr) => {
                 if &tr != t {
-                    f.add("id_denotes_another_term", json!({"api": "encode_term_star", "spelling": sp.name(), "encoded": t.render(), "id": id, "id_denotes": tr.render(), "trace_tail": tail(trace, 20)}));
+                    f.add("id_denotes_another_term", || json!({"api": "encode_term_star", "spelling": sp.name(), "encoded": t.render(), "id": id, "id_denotes": tr.render(), "trace_tail": tail(trace, 20)}));
                 }
             }
-            Err(e) => f.add("id_not_decodable", json!({"api": "encode_term_star", "spelling": sp.name(), "term": t.render(), "id": id, "error": e})),
+            Err(e) => f.add("id_not_decodable", || json!({"api": "encode_term_star", "spelling": sp.name(), "term": t.render(), "id": id, "error": e})),
         }
         let got = db.decode_any(id);
         if got.as_deref() != Some(t.render().as_str()) {
-            f.add("decode_is_not_inverse_of_encode", json!({"api": "decode_any", "spelling": sp.name(), "term": t.render(), "id": id, "decodes_to": got, "trace_tail": tail(trace, 20)}));
+            f.add("decode_is_not_inverse_of_encode", || json!({"api": "decode_any", "spelling": sp.name(), "term": t.render(), "id": id, "decodes_to": got, "trace_tail": tail(trace, 20)}));
         }
         // components
         if let (T::Q(b), true) = (t, is_quoted_triple_id(id)) {
@@ -676,15 +676,15 @@ fn star_full_check(db: &SparqlDatabase, sh: &StarShadow, f: &mut Finds, trace: &
         n += 1;
         let got = db.decode_any(id);
         if got.as_deref() != Some(t.render().as_str()) {
-            f.add("id_changed_meaning_after_later_encodes", json!({"api": "decode_any", "term": t.render(), "id": id, "decodes_to": got, "trace_tail": tail(trace, 20)}));
+            f.add("id_changed_meaning_after_later_encodes", || json!({"api": "decode_any", "term": t.render(), "id": id, "decodes_to": got, "trace_tail": tail(trace, 20)}));
         }
         match db_tree(db, id) {
             Ok(tr) if &tr == t => {}
-            other => f.add("id_changed_meaning_after_later_encodes", json!({"api": "structure", "term": t.render(), "id": id, "now": format!("{:?}", other.map(|t| t.render())), "trace_tail": tail(trace, 20)})),
+            other => f.add("id_changed_meaning_after_later_encodes", || json!({"api": "structure", "term": t.render(), "id": id, "now": format!("{:?}", other.map(|t| t.render())), "trace_tail": tail(trace, 20)})),
         }
         let again = db.encode_term_star(&spell(t, Sp::Canon, r));
         if again != id {
-            f.add("term_reencoded_to_different_id", json!({"api": "encode_term_star", "spelling": "canonical", "term": t.render(), "first_id": id, "later_id": again, "trace_tail": tail(trace, 20)}));
+            f.add("term_reencoded_to_different_id", || json!({"api": "encode_term_star", "spelling": "canonical", "term": t.render(), "first_id": id, "later_id": again, "trace_tail": tail(trace, 20)}));
         }
     }
     n
@@ -761,14 +761,14 @@ fn run_star_case(r: &mut Rng, thorough: bool) -> Result<(Finds, StarStats, u64, 
                     for (t, (known, now)) in [&s, &p, &o, &T::P(g.clone())].iter().zip([si, pi, oi, gi].iter().zip(ids.iter().chain(std::iter::once(&gid)))) {
                         if let Some(k) = known {
                             if k != now {
-                                f.add("term_reencoded_to_different_id", json!({"api": "add_quad_parts", "term": t.render(), "first_id": k, "later_id": now, "trace_tail": tail(&trace, 20)}));
+                                f.add("term_reencoded_to_different_id", || json!({"api": "add_quad_parts", "term": t.render(), "first_id": k, "later_id": now, "trace_tail": tail(&trace, 20)}));
                             }
                         }
                         sh.observe(&db, t, *now, sp, &mut f, &trace);
                     }
                     let stored = db.dataset_index.contains_quad(&Quad { subject: ids[0], predicate: ids[1], object: ids[2], graph: GraphId::Named(gid) });
                     if !stored {
-                        f.add("quad_stored_under_other_ids", json!({"api": "add_quad_parts", "quad": format!("{} {} {} @{}", s.render(), p.render(), o.render(), g), "trace_tail": tail(&trace, 20)}));
+                        f.add("quad_stored_under_other_ids", || json!({"api": "add_quad_parts", "quad": format!("{} {} {} @{}", s.render(), p.render(), o.render(), g), "trace_tail": tail(&trace, 20)}));
                     }
                 }
                 2 => {
@@ -782,7 +782,7 @@ fn run_star_case(r: &mut Rng, thorough: bool) -> Result<(Finds, StarStats, u64, 
                         sh.observe(&db, t, *id, Sp::Canon, &mut f, &trace);
                     }
                     if !db.dataset_index.contains_quad(&Quad { subject: ids[0], predicate: ids[1], object: ids[2], graph: GraphId::Default }) {
-                        f.add("quad_stored_under_other_ids", json!({"api": "add_triple_parts", "triple": format!("{} {} {}", s.render(), p.render(), o.render()), "trace_tail": tail(&trace, 20)}));
+                        f.add("quad_stored_under_other_ids", || json!({"api": "add_triple_parts", "triple": format!("{} {} {}", s.render(), p.render(), o.render()), "trace_tail": tail(&trace, 20)}));
                     }
                 }
                 3 => {
@@ -792,7 +792,7 @@ fn run_star_case(r: &mut Rng, thorough: bool) -> Result<(Finds, StarStats, u64, 
                         let (t, &id) = sh.fwd.iter().nth(k).unwrap();
                         let got = db.decode_any(id);
                         if got.as_deref() != Some(t.render().as_str()) {
-                            f.add("id_changed_meaning_after_later_encodes", json!({"api": "decode_any", "term": t.render(), "id": id, "decodes_to": got, "trace_tail": tail(&trace, 20)}));
+                            f.add("id_changed_meaning_after_later_encodes", || json!({"api": "decode_any", "term": t.render(), "id": id, "decodes_to": got, "trace_tail": tail(&trace, 20)}));
                         }
                     }
                 }
@@ -802,7 +802,7 @@ fn run_star_case(r: &mut Rng, thorough: bool) -> Result<(Finds, StarStats, u64, 
                     for id in [pid, qid] {
                         if !sh.rev.contains_key(&id) {
                             if let Some(x) = db.decode_any(id) {
-                                f.add("never_issued_id_decodes", json!({"api": "decode_any", "id": id, "decodes_to": x}));
+                                f.add("never_issued_id_decodes", || json!({"api": "decode_any", "id": id, "decodes_to": x}));
                             }
                         }
                     }
@@ -826,7 +826,7 @@ fn run_star_case(r: &mut Rng, thorough: bool) -> Result<(Finds, StarStats, u64, 
         if dl != n_plain || ql != n_q {
             let d = db.dictionary.read().unwrap();
             let extra: Vec<String> = d.string_to_id.keys().filter(|s| !sh.fwd.contains_key(&T::P((*s).clone()))).take(5).cloned().collect();
-            f.add("terms_encoded_that_were_never_given", json!({"plain_terms_given": n_plain, "dictionary_size": dl, "quoted_terms_given": n_q, "store_size": ql, "unexpected_plain_terms": extra, "trace_tail": tail(&trace, 20)}));
+            f.add("terms_encoded_that_were_never_given", || json!({"plain_terms_given": n_plain, "dictionary_size": dl, "quoted_terms_given": n_q, "store_size": ql, "unexpected_plain_terms": extra, "trace_tail": tail(&trace, 20)}));
         }
         let h = hash_str(&trace.join("\n"));
         (f, st, h, None)
@@ -1127,7 +1127,7 @@ fn observe(raw: &Raw, db: Option<&SparqlDatabase>, who: &str, f: &mut Finds) -> 
     }
     if !bad.is_empty() {
         bad.sort();
-        f.add(&format!("{}_dictionary_not_a_bijection", who), json!({"problems": bad.iter().take(6).collect::<Vec<_>>()}));
+        f.add(&format!("{}_dictionary_not_a_bijection", who), || json!({"problems": bad.iter().take(6).collect::<Vec<_>>()}));
     }
     let mut badq: Vec<String> = vec![];
     if q.id_to_components.len() != q.components_to_id.len() {
@@ -1151,7 +1151,7 @@ fn observe(raw: &Raw, db: Option<&SparqlDatabase>, who: &str, f: &mut Finds) -> 
     }
     if !badq.is_empty() {
         badq.sort();
-        f.add(&format!("{}_quoted_store_not_a_bijection", who), json!({"problems": badq.iter().take(6).collect::<Vec<_>>()}));
+        f.add(&format!("{}_quoted_store_not_a_bijection", who), || json!({"problems": badq.iter().take(6).collect::<Vec<_>>()}));
     }
     o.terms = d.string_to_id.keys().cloned().collect();
     let mut undec: Vec<String> = vec![];
@@ -1160,7 +1160,7 @@ fn observe(raw: &Raw, db: Option<&SparqlDatabase>, who: &str, f: &mut Finds) -> 
         match tree_of(d, q, *id, 64) {
             Ok(t) => {
                 if let Some(other) = seen_q.insert(t.clone(), *id) {
-                    f.add(&format!("{}_quoted_term_has_two_ids", who), json!({"term": t.render(), "ids": [other, *id]}));
+                    f.add(&format!("{}_quoted_term_has_two_ids", who), || json!({"term": t.render(), "ids": [other, *id]}));
                 }
                 o.qterms.insert(t);
             }
@@ -1173,7 +1173,7 @@ fn observe(raw: &Raw, db: Option<&SparqlDatabase>, who: &str, f: &mut Finds) -> 
                 if let Some(db) = db {
                     let got = db.decode_any(id);
                     if got.as_deref() != Some(t.render().as_str()) {
-                        f.add(&format!("{}_decode_any_differs_from_structure", who), json!({"id": id, "structure": t.render(), "decode_any": got}));
+                        f.add(&format!("{}_decode_any_differs_from_structure", who), || json!({"id": id, "structure": t.render(), "decode_any": got}));
                     }
                 }
                 Some(t)
@@ -1188,7 +1188,7 @@ fn observe(raw: &Raw, db: Option<&SparqlDatabase>, who: &str, f: &mut Finds) -> 
         if let GraphId::Named(id) = g {
             if let Some(t) = dec(*id, &mut undec, f) {
                 if !o.graphs.insert(t.clone()) {
-                    f.add(&format!("{}_graph_listed_under_two_ids", who), json!({"graph": t.render()}));
+                    f.add(&format!("{}_graph_listed_under_two_ids", who), || json!({"graph": t.render()}));
                 }
             }
         }
@@ -1201,7 +1201,7 @@ fn observe(raw: &Raw, db: Option<&SparqlDatabase>, who: &str, f: &mut Finds) -> 
         if let (Some(s), Some(p), Some(ob), Some(g)) = (dec(qd.subject, &mut undec, f), dec(qd.predicate, &mut undec, f), dec(qd.object, &mut undec, f), g) {
             let lex = (s, p, ob, g);
             if !o.quads.insert(lex.clone()) {
-                f.add(&format!("{}_quad_stored_under_two_id_tuples", who), json!({"quad": mquad_str(&lex)}));
+                f.add(&format!("{}_quad_stored_under_two_id_tuples", who), || json!({"quad": mquad_str(&lex)}));
             }
         }
     }
@@ -1209,14 +1209,14 @@ fn observe(raw: &Raw, db: Option<&SparqlDatabase>, who: &str, f: &mut Finds) -> 
         if let (Some(s), Some(pp), Some(ob)) = (dec(t.subject, &mut undec, f), dec(t.predicate, &mut undec, f), dec(t.object, &mut undec, f)) {
             let k = (s, pp, ob);
             if let Some(prev) = o.seeds.insert(k.clone(), *p) {
-                f.add(&format!("{}_seed_stored_under_two_id_triples", who), json!({"triple": format!("{} {} {}", k.0.render(), k.1.render(), k.2.render()), "values": [f64::from_bits(prev), f64::from_bits(*p)]}));
+                f.add(&format!("{}_seed_stored_under_two_id_triples", who), || json!({"triple": format!("{} {} {}", k.0.render(), k.1.render(), k.2.render()), "values": [f64::from_bits(prev), f64::from_bits(*p)]}));
             }
         }
     }
     if !undec.is_empty() {
         undec.sort();
         undec.dedup();
-        f.add(&format!("{}_refers_to_undecodable_id", who), json!({"errors": undec.iter().take(6).collect::<Vec<_>>()}));
+        f.add(&format!("{}_refers_to_undecodable_id", who), || json!({"errors": undec.iter().take(6).collect::<Vec<_>>()}));
     }
     o
 }
@@ -1225,9 +1225,32 @@ fn mquad_str(q: &MQuad) -> String {
     format!("{} {} {} @{}", q.0.render(), q.1.render(), q.2.render(), q.3.as_ref().map(|g| g.render()).unwrap_or_else(|| "DEFAULT".into()))
 }
 
-/// compare an observation with the model; `who` = "load" or "union"
-fn diff(m: &Model, o: &Obs, who: &str, f: &mut Finds) {
-    let missing: Vec<String> = m.quads.iter().filter(|q| !o.quads.contains(*q)).map(mquad_str).collect();
+/// which operand(s) the items missing from a union result belong to
+fn side<X>(items: &[X], in_left: impl Fn(&X) -> bool, in_right: impl Fn(&X) -> bool) -> &'static str {
+    let (mut l, mut r, mut b) = (0, 0, 0);
+    for x in items {
+        match (in_left(x), in_right(x)) {
+            (true, true) => b += 1,
+            (true, false) => l += 1,
+            (false, true) => r += 1,
+            _ => {}
+        }
+    }
+    match (l > 0, r > 0, b > 0) {
+        (false, false, false) => "nothing",
+        (true, false, false) => "left_operand_only",
+        (false, true, false) => "right_operand_only",
+        (false, false, true) => "items_present_in_both_operands",
+        (false, true, true) => "right_operand",
+        (true, false, true) => "left_operand",
+        _ => "both_operands",
+    }
+}
+
+/// compare an observation with the model; `who` = "load" or "union"; `ops` = the models of
+/// the two operands of a union (to say whose items are missing)
+fn diff(m: &Model, o: &Obs, who: &str, f: &mut Finds, ops: Option<(&Model, &Model)>) {
+    let missing: Vec<&MQuad> = m.quads.iter().filter(|q| !o.quads.contains(*q)).collect();
     let extra: Vec<String> = o.quads.iter().filter(|q| !m.quads.contains(*q)).map(mquad_str).collect();
     if !missing.is_empty() || !extra.is_empty() {
         let kind = match (missing.is_empty(), extra.is_empty()) {
@@ -1235,9 +1258,10 @@ fn diff(m: &Model, o: &Obs, who: &str, f: &mut Finds) {
             (true, false) => "quads_extra",
             _ => "quads_replaced",
         };
-        f.add(&format!("{}_{}", who, kind), json!({"missing": missing.iter().take(5).collect::<Vec<_>>(), "n_missing": missing.len(), "unexpected": extra.iter().take(5).collect::<Vec<_>>(), "n_unexpected": extra.len()}));
+        let from = ops.map(|(a, b)| side(&missing, |q| a.quads.contains(*q), |q| b.quads.contains(*q)));
+        f.add(&format!("{}_{}", who, kind), || json!({"missing": missing.iter().take(5).map(|q| mquad_str(q)).collect::<Vec<_>>(), "n_missing": missing.len(), "missing_from": from, "unexpected": extra.iter().take(5).collect::<Vec<_>>(), "n_unexpected": extra.len()}));
     }
-    let gm: Vec<String> = m.graphs.difference(&o.graphs).map(|t| t.render()).collect();
+    let gm: Vec<&T> = m.graphs.difference(&o.graphs).collect();
     let ge: Vec<String> = o.graphs.difference(&m.graphs).map(|t| t.render()).collect();
     if !gm.is_empty() || !ge.is_empty() {
         let kind = match (gm.is_empty(), ge.is_empty()) {
@@ -1245,11 +1269,12 @@ fn diff(m: &Model, o: &Obs, who: &str, f: &mut Finds) {
             (true, false) => "catalog_graphs_extra",
             _ => "catalog_graphs_replaced",
         };
-        let empty_missing = gm.iter().filter(|g| !m.quads.iter().any(|q| q.3.as_ref().map(|x| x.render()) == Some((*g).clone()))).count();
-        f.add(&format!("{}_{}", who, kind), json!({"missing": gm, "of_which_empty_graphs": empty_missing, "unexpected": ge}));
+        let empty_missing = gm.iter().filter(|g| !m.quads.iter().any(|q| q.3.as_ref() == Some(**g))).count();
+        let from = ops.map(|(a, b)| side(&gm, |g| a.graphs.contains(*g), |g| b.graphs.contains(*g)));
+        f.add(&format!("{}_{}", who, kind), || json!({"missing": gm.iter().map(|g| g.render()).collect::<Vec<_>>(), "missing_from": from, "of_which_empty_graphs": empty_missing, "unexpected": ge}));
     }
     let tstr = |k: &(T, T, T)| format!("{} {} {}", k.0.render(), k.1.render(), k.2.render());
-    let sm: Vec<String> = m.seeds.keys().filter(|k| !o.seeds.contains_key(*k)).map(tstr).collect();
+    let sm: Vec<&(T, T, T)> = m.seeds.keys().filter(|k| !o.seeds.contains_key(*k)).collect();
     let se: Vec<String> = o.seeds.keys().filter(|k| !m.seeds.contains_key(*k)).map(tstr).collect();
     if !sm.is_empty() || !se.is_empty() {
         let kind = match (sm.is_empty(), se.is_empty()) {
@@ -1257,16 +1282,17 @@ fn diff(m: &Model, o: &Obs, who: &str, f: &mut Finds) {
             (true, false) => "seeds_extra",
             _ => "seeds_attached_to_other_triples",
         };
-        f.add(&format!("{}_{}", who, kind), json!({"missing": sm.iter().take(5).collect::<Vec<_>>(), "unexpected": se.iter().take(5).collect::<Vec<_>>()}));
+        let from = ops.map(|(a, b)| side(&sm, |k| a.seeds.contains_key(*k), |k| b.seeds.contains_key(*k)));
+        f.add(&format!("{}_{}", who, kind), || json!({"missing": sm.iter().take(5).map(|k| tstr(k)).collect::<Vec<_>>(), "missing_from": from, "unexpected": se.iter().take(5).collect::<Vec<_>>()}));
     }
     for (k, v) in &o.seeds {
         if let Some(acc) = m.seeds.get(k) {
             if !acc.contains(v) {
-                f.add(&format!("{}_seed_value_wrong", who), json!({"triple": tstr(k), "got": f64::from_bits(*v), "acceptable": acc.iter().map(|b| f64::from_bits(*b)).collect::<Vec<_>>()}));
+                f.add(&format!("{}_seed_value_wrong", who), || json!({"triple": tstr(k), "got": f64::from_bits(*v), "acceptable": acc.iter().map(|b| f64::from_bits(*b)).collect::<Vec<_>>()}));
             }
         }
     }
-    let qm: Vec<String> = m.qterms.difference(&o.qterms).map(|t| t.render()).collect();
+    let qm: Vec<&T> = m.qterms.difference(&o.qterms).collect();
     let qe: Vec<String> = o.qterms.difference(&m.qterms).map(|t| t.render()).collect();
     if !qm.is_empty() || !qe.is_empty() {
         let kind = match (qm.is_empty(), qe.is_empty()) {
@@ -1274,15 +1300,17 @@ fn diff(m: &Model, o: &Obs, who: &str, f: &mut Finds) {
             (true, false) => "quoted_terms_extra",
             _ => "quoted_terms_replaced",
         };
-        f.add(&format!("{}_{}", who, kind), json!({"missing": qm.iter().take(5).collect::<Vec<_>>(), "unexpected": qe.iter().take(5).collect::<Vec<_>>()}));
+        let from = ops.map(|(a, b)| side(&qm, |t| a.qterms.contains(*t), |t| b.qterms.contains(*t)));
+        f.add(&format!("{}_{}", who, kind), || json!({"missing": qm.iter().take(5).map(|t| t.render()).collect::<Vec<_>>(), "missing_from": from, "unexpected": qe.iter().take(5).collect::<Vec<_>>()}));
     }
     let tm: Vec<&String> = m.terms.difference(&o.terms).collect();
     let te: Vec<&String> = o.terms.difference(&m.terms).collect();
     if !tm.is_empty() {
-        f.add(&format!("{}_dictionary_terms_missing", who), json!({"missing": tm.iter().take(5).collect::<Vec<_>>()}));
+        let from = ops.map(|(a, b)| side(&tm, |t| a.terms.contains(*t), |t| b.terms.contains(*t)));
+        f.add(&format!("{}_dictionary_terms_missing", who), || json!({"missing": tm.iter().take(5).collect::<Vec<_>>(), "missing_from": from}));
     }
     if !te.is_empty() {
-        f.add(&format!("{}_dictionary_terms_extra", who), json!({"unexpected": te.iter().take(5).collect::<Vec<_>>()}));
+        f.add(&format!("{}_dictionary_terms_extra", who), || json!({"unexpected": te.iter().take(5).collect::<Vec<_>>()}));
     }
 }
 
@@ -1376,7 +1404,7 @@ fn evaluate(c: &Case, mut stats: Option<&mut UStats>) -> Finds {
             let (db, m) = build(s, c.spell_seed.wrapping_add(i as u64));
             let raw = raw_of(&db);
             let o = observe(&raw, Some(&db), "load", &mut f);
-            diff(&m, &o, "load", &mut f);
+            diff(&m, &o, "load", &mut f, None);
             dbs.push(db);
             models.push(m);
         }
@@ -1392,7 +1420,7 @@ fn evaluate(c: &Case, mut stats: Option<&mut UStats>) -> Finds {
             let u = match guard(|| left.union(&dbs[j])) {
                 Ok(u) => u,
                 Err(e) => {
-                    f.add("union_panics", json!({"site": panic_site(&e), "panic": e, "step": n}));
+                    f.add("union_panics", || json!({"site": panic_site(&e), "panic": e, "step": n}));
                     return (f, st);
                 }
             };
@@ -1430,17 +1458,17 @@ fn evaluate(c: &Case, mut stats: Option<&mut UStats>) -> Finds {
             // inputs must be exactly as before
             let (ri2, rj2) = (raw_of(&dbs[i]), raw_of(&dbs[j]));
             if ri2 != ri {
-                f.add("union_modified_left_input", json!({"step": n, "changed": raw_changes(&ri, &ri2)}));
+                f.add("union_modified_left_input", || json!({"step": n, "changed": raw_changes(&ri, &ri2)}));
             }
             if rj2 != rj {
-                f.add("union_modified_right_input", json!({"step": n, "changed": raw_changes(&rj, &rj2)}));
+                f.add("union_modified_right_input", || json!({"step": n, "changed": raw_changes(&rj, &rj2)}));
             }
             // the result denotes the union
             let ru = raw_of(&u);
             let o = observe(&ru, Some(&u), "union", &mut f);
             let mut expect = Model::merge(&models[i], &models[j]);
             let before = f.0.len();
-            diff(&expect, &o, "union", &mut f);
+            diff(&expect, &o, "union", &mut f, Some((&models[i], &models[j])));
             for fi in f.0.iter_mut().skip(before) {
                 fi.detail["step"] = json!(n);
                 fi.detail["operands"] = json!([i, j]);
@@ -1481,10 +1509,10 @@ fn evaluate(c: &Case, mut stats: Option<&mut UStats>) -> Finds {
                         T::Q(_) => !expect.qterms.contains(t),
                     };
                     if is_new && issued.contains(&id) {
-                        f.add("union_result_gives_used_id_to_new_term", json!({"new_term": t.render(), "id": id, "id_already_denotes": tree_of(&ru.dict, &ru.store, id, 64).map(|t| t.render()).unwrap_or_default()}));
+                        f.add("union_result_gives_used_id_to_new_term", || json!({"new_term": t.render(), "id": id, "id_already_denotes": tree_of(&ru.dict, &ru.store, id, 64).map(|t| t.render()).unwrap_or_default()}));
                     }
                     if u.decode_any(id).as_deref() != Some(t.render().as_str()) {
-                        f.add("union_result_decode_is_not_inverse_of_encode", json!({"term": t.render(), "id": id, "decodes_to": u.decode_any(id)}));
+                        f.add("union_result_decode_is_not_inverse_of_encode", || json!({"term": t.render(), "id": id, "decodes_to": u.decode_any(id)}));
                     }
                     expect.terms.extend(pl);
                     expect.qterms.extend(qs);
@@ -1493,10 +1521,10 @@ fn evaluate(c: &Case, mut stats: Option<&mut UStats>) -> Finds {
                 let mut f2 = Finds::default();
                 let o2 = observe(&ru2, Some(&u), "extended_union", &mut f2);
                 if o2.quads != o.quads || o2.graphs != o.graphs || o2.seeds != o.seeds || !f2.0.is_empty() {
-                    f.add("union_result_changes_when_new_terms_are_encoded", json!({"internal": f2.0.iter().map(|x| x.kind.clone()).collect::<Vec<_>>(), "quads_equal": o2.quads == o.quads, "catalog_equal": o2.graphs == o.graphs, "seeds_equal": o2.seeds == o.seeds}));
+                    f.add("union_result_changes_when_new_terms_are_encoded", || json!({"internal": f2.0.iter().map(|x| x.kind.clone()).collect::<Vec<_>>(), "quads_equal": o2.quads == o.quads, "catalog_equal": o2.graphs == o.graphs, "seeds_equal": o2.seeds == o.seeds}));
                 }
                 if raw_of(&dbs[i]) != ri || raw_of(&dbs[j]) != rj {
-                    f.add("union_result_shares_state_with_input", json!({"left_changed": raw_changes(&ri, &raw_of(&dbs[i])), "right_changed": raw_changes(&rj, &raw_of(&dbs[j]))}));
+                    f.add("union_result_shares_state_with_input", || json!({"left_changed": raw_changes(&ri, &raw_of(&dbs[i])), "right_changed": raw_changes(&rj, &raw_of(&dbs[j]))}));
                 }
             }
             dbs.push(u);
@@ -1513,7 +1541,7 @@ fn evaluate(c: &Case, mut stats: Option<&mut UStats>) -> Finds {
         }
         Err(e) => {
             let mut f = Finds::default();
-            f.add("panic_while_building_or_observing", json!({"site": panic_site(&e), "panic": e}));
+            f.add("panic_while_building_or_observing", || json!({"site": panic_site(&e), "panic": e}));
             f
         }
     }
@@ -2002,6 +2030,7 @@ fn run(ctx: &mut Ctx) {
 
     // ---- union
     ctx.phase("union", ctx.by_tier(24_000, 600_000));
+    let mut shrunk_per_kind: BTreeMap<String, u32> = BTreeMap::new();
     while let Some(k) = ctx.next_case() {
         let mut r = ctx.rng(k);
         let (case, shape) = gen_union_case(&mut r, thorough);
@@ -2046,24 +2075,43 @@ fn run(ctx: &mut Ctx) {
             ctx.violation(json!({"kind": kind, "stage": "building_operands"}), json!({"finding": first.detail, "all_findings": all, "case": case_json(&case)}));
             continue;
         }
-        let mut budget = 400usize;
+        // attribution costs a few hundred evaluations: done for the first cases of each kind
+        // in a shard, later ones are only counted
+        let seen = shrunk_per_kind.entry(kind.clone()).or_insert(0u32);
+        *seen += 1;
+        if *seen > 3 || !ctx.time_left() {
+            ctx.count(&format!("union.further_violating_cases.{}", kind), 1);
+            continue;
+        }
+        let mut budget = 250usize;
         let small = shrink(&case, &kind, &mut budget);
         let fs = evaluate(&small, None);
         let d = fs.0.iter().find(|x| x.kind == kind).map(|x| x.detail.clone()).unwrap_or(first.detail.clone());
+        // a restriction is "needed" only when neither the minimal nor the original case
+        // fails under it (a restriction also renumbers ids, which alone can hide a failure)
         let mut needs: Vec<&str> = vec![];
-        if !still(&aligned_ids(&small), &kind) {
+        if !still(&aligned_ids(&small), &kind) && !still(&aligned_ids(&case), &kind) {
             needs.push("clashing_ids");
         }
-        if !still(&flatten_quoted(&small), &kind) {
+        if !still(&flatten_quoted(&small), &kind) && !still(&flatten_quoted(&case), &kind) {
             needs.push("quoted_terms");
         }
-        if !still(&default_only(&small), &kind) {
+        if !still(&default_only(&small), &kind) && !still(&default_only(&case), &kind) {
             needs.push("named_graphs");
         }
-        if !still(&no_seeds(&small), &kind) {
+        if !still(&no_seeds(&small), &kind) && !still(&no_seeds(&case), &kind) {
             needs.push("probability_seeds");
         }
-        ctx.violation(json!({"kind": kind, "needs": needs}), json!({"finding": d, "all_findings_on_the_original_case": all, "minimal_case": case_json(&small), "original_case": case_json(&case), "shape": shape}));
+        let mut sig = json!({"kind": kind, "needs": needs});
+        if let Some(m) = d.get("missing_from") {
+            if !m.is_null() {
+                sig["missing_from"] = m.clone();
+            }
+        }
+        if let Some(m) = d.get("changed") {
+            sig["changed"] = m.clone();
+        }
+        ctx.violation(sig, json!({"finding": d, "all_findings_on_the_original_case": all, "minimal_case": case_json(&small), "original_case": case_json(&case), "shape": shape}));
     }
 }
 
